@@ -20,6 +20,8 @@ from numpy.typing import NDArray
 
 from nucs.constants import (
     LOG_LEVEL_INFO,
+    MAX,
+    MIN,
     NUMBA_DISABLE_JIT,
     PROBLEM_BOUND,
     PROBLEM_UNBOUND,
@@ -231,6 +233,8 @@ class BacktrackSolver(Solver):
                 variable_idx,
                 best_solution[variable_idx],
             )
+            if is_empty(self.shr_domains_stack, self.stacks_top, self.problem.dom_indices_arr[variable_idx]):
+                break  # the incumbent is at the bound of the domain, it cannot be improved
         return best_solution
 
     def solve(self) -> Iterator[NDArray]:
@@ -366,6 +370,8 @@ class BacktrackSolver(Solver):
                 variable_idx,
                 solution[variable_idx],
             )
+            if is_empty(self.shr_domains_stack, self.stacks_top, self.problem.dom_indices_arr[variable_idx]):
+                break  # the incumbent is at the bound of the domain, it cannot be improved
         solution_queue.put((processor_idx, None, self.statistics))
 
     def solve_and_queue(self, processor_idx: int, solution_queue: Queue) -> None:
@@ -419,6 +425,17 @@ class BacktrackSolver(Solver):
             ):
                 break
         solution_queue.put((processor_idx, None, self.statistics))
+
+
+def is_empty(shr_domains_stack: NDArray, stacks_top: NDArray, dom_idx: int) -> bool:
+    """
+    Returns true iff a shared domain is empty.
+    :param shr_domains_stack: the stack of shared domains
+    :param stacks_top: the index of the top of the stacks as a Numpy array
+    :param dom_idx: the index of the shared domain
+    :return: a boolean
+    """
+    return bool(shr_domains_stack[stacks_top[0], dom_idx, MIN] > shr_domains_stack[stacks_top[0], dom_idx, MAX])
 
 
 def reset(
